@@ -47,7 +47,7 @@ CLAIMED = {
          "TLA+ Framing spec (TLC exhaustive) + exhaustive cut-point driving of the real handler + TLC trace validation"),
  "C05": ("DESIGN.md §4 C05",
          "Aggregation.tla carries the code-shaped transitions (+=, latest value, 8*diff/dt, per-node previous end) and, over a history variable, the declarative reading of the property (ArithmeticOK: per node totals = latest, deltas = sum since reset, throughput from the node's previous record, common fields follow a node holding the latest end). TLC checks their agreement on all record/reset histories of one flow within the exporter contract (420 k - several M states) plus independence and reset-only-delta action properties; random histories on the real AggregationProcess are validated step by step on the full projection of every flow record, with ArithmeticOK evaluated on every state.",
-         "Trusted: TLC, harness projections through GetRecords and the snapshot hook. Counters below 2^27; uint64 overflow not covered.",
+         "Trusted: TLC, harness projections through GetRecords and the snapshot hook. Counters below 2^27 in the full-state runs; octet counters of 2^40..2^60 are covered on single-stream flows by limb arithmetic (BigArith.tla / C05BigTrace); uint64 wrap-around not covered.",
          "TLA+ Aggregation spec (TLC exhaustive, declarative vs code-shaped) + TLC trace validation of full flow-record projections"),
  "C06": ("DESIGN.md §4 C06",
          "Aggregation.tla models the expiry queue as a set of [key, active, inactive] items and the scan as one atomic action parameterised by the failing-key set and the pop order; AggExpiryMC checks Agreement, CallbackIff, InactiveRemoves/ActiveKeeps, FailureKeepsFlow exhaustively (2 keys, now<=5, every failing subset). Every edge of TLC's state graph is replayed on the real process under virtual time, plus random histories; flow map, heap array (index fields, heap order, back pointers), GetNumFlows and GetExpiry are compared after every call.",
@@ -76,7 +76,7 @@ CLAIMED = {
  "C18": ("DESIGN.md §4 C18",
          "Transport.tla states the admission policy as operators over a configuration cell (server certificate, ServerName, client certificate, client CA, protocol, peer max version, plaintext peer); TLC checks the property's implications over the whole matrix (4032 cells). One real handshake (and message) is run per cell of the exercised matrix against the real exporter or collector with certificates minted per run, and TLC validates each observed outcome (established / delivered / version / nothing sent in the clear) against the policy.",
          "Trusted: TLC, crypto/tls and pion/dtls (the handshake implementations), the harness peers. DTLS without ServerName is permissive; DTLS client authentication is not claimed.",
-         "TLA+ Transport policy spec (TLC over the configuration matrix) + one real handshake per cell + TLC validation"),
+         "TLA+ Transport policy spec (TLC over the configuration matrix and over histories of exporters against one endpoint; TLAPS proofs of the policy theorems for every cell) + one real handshake per cell / history step + TLC validation"),
  "C19": ("DESIGN.md §4 C19",
          "Kafka.tla specifies out = flatten(in): one expected Kafka message per data record in order, none for templates, with the schema's element-to-field mapping and the message header fields; TLC checks it exhaustively on small streams. The real PublishIPFIXMessages runs with both shipped convertors against a fake AsyncProducer; TLC validates topic, 4-byte big-endian length prefix, protobuf well-formedness, field-by-field equality (fields read by the harness's own wire reader) and the consumer-side decoder's result.",
          "Trusted: TLC, the harness's protobuf wire reader and field-number table, the fake producer. Values below 2^31.",
@@ -84,7 +84,7 @@ CLAIMED = {
  "C20": ("DESIGN.md §4 C20",
          "Store.tla specifies the bounded window (evict oldest at the cap), the /records query (status and result) and /reset; TLC checks Bounded, MostRecentInOrder and the query result exhaustively with cap 3. An in-package driver (injected with -overlay) drives addIPFIXMessage and the HTTP handlers through several multiples of the real cap; TLC validates every arrival (incl. that every field of every record is rendered by name and value), query and reset.",
          "Trusted: TLC, the driver's parsing of rendered entries, go's -overlay. The cap constant is read from the source at check time.",
-         "TLA+ Store spec (TLC exhaustive) + TLC trace validation of an in-package driver run"),
+         "TLA+ Store spec (TLC exhaustive at cap 3; TLAPS proof of the bound and of suffix-of-arrivals for every cap and history) + TLC trace validation of an in-package driver run with the real cap"),
 }
 PENDING = {}
 
